@@ -331,6 +331,19 @@ func init() {
 			if v == nil {
 				c05Stat("applyv/agree")
 			}
+			// the branches of the model this stream reaches on its own (the judge's own statistics are shared with c05.apply)
+			var r c05ApplyReal
+			if json.Unmarshal(real, &r) == nil && r.Out != nil {
+				c05Stat("applyv/real-outcome/" + c05OutClass(r.Out))
+			}
+			var d struct {
+				Walk [][2]string `json:"walk"`
+			}
+			if json.Unmarshal(drv, &d) == nil {
+				for _, w := range d.Walk {
+					c05Stat("applyv/walk/" + w[1])
+				}
+			}
 			return v
 		},
 		Timeout: 20 * time.Second,
